@@ -198,3 +198,49 @@ func propC12(t *rapid.T) {
 	}
 	vt.Run(t, c12Rec, c, checkC12)
 }
+
+// TestC12Large: one alert with 20000 / 70000 selectors, and 9000 / 70000 alerts, against the reference normalisation.
+func TestC12Large(t *testing.T) {
+	largeRT(t, c12Rec, [][2]int{{2, 20000}, {2, 140000}, {3, 9000}, {3, 70000}}, func(t *rapid.T, zone string, m *rgen.Msg) CaseRT {
+		// every selector gets a route id of its own (explicit selectors and route-only descriptors from separate ranges, with a
+		// few overlaps), so that one alert can name more than 65,536 distinct routes
+		k := 0
+		for ei := range m.Entities {
+			al := m.Entities[ei].AL
+			if al == nil || len(al.Informed) < 1000 {
+				continue
+			}
+			for si := range al.Informed {
+				sel := &al.Informed[si]
+				k++
+				if sel.Route != nil || (sel.Trip == nil && k%2 == 0) {
+					sel.Route = rgen.P(fmt.Sprintf("R%d", k))
+				}
+				if d := sel.Trip; d != nil && d.TripID == nil && d.RouteID != nil && d.StartTime == nil && d.StartDate == nil {
+					dd := *d
+					dd.RouteID = rgen.P(fmt.Sprintf("R%d", k-k%3)) // every third one names a route an explicit selector may name too
+					sel.Trip = &dd
+				}
+			}
+		}
+		distinct := map[string]bool{}
+		for ei := range m.Entities {
+			if al := m.Entities[ei].AL; al != nil && len(al.Informed) >= 1000 {
+				for si := range al.Informed {
+					if r := al.Informed[si].Route; r != nil {
+						distinct[*r] = true
+					}
+					if d := al.Informed[si].Trip; d != nil && d.RouteID != nil {
+						distinct[*d.RouteID] = true
+					}
+				}
+			}
+		}
+		if len(distinct) > 65536 {
+			c12Rec.Class("large:distinct-routes-in-one-alert>65536")
+		}
+		c := CaseRT{Zone: zone, Msg: m}
+		c.Env = genEnv(t)
+		return c
+	}, checkC12)
+}
